@@ -465,9 +465,22 @@ class LWorld:
         raise Violation('unexpected-exception', f'op {oi}: apply(mutable=False) raised {type(base[1]).__name__}: {base[1]}')
       y0 = val(base[1])
       if how == 'capture':
+        plain_int = lambda: m.apply(v, x, rngs=rngs, mutable=['intermediates'])
+        before_int = self.guarded(oi, 'apply(intermediates)', plain_int)
         o = self.guarded(oi, 'apply(capture)', lambda: m.apply(v, x, rngs=rngs, mutable=['intermediates'], capture_intermediates=True))
         if o[0] != 'ok' or val(o[1][0]) != y0:
           raise Violation('observation-changed-output', f'op {oi}: capture_intermediates changed the primary output')
+        n_ev = P.CTL.count
+        # the same capturing call, aborted half-way by an exception inside a module body ...
+        at = (op['seed'] * 7 + op['fill']) % max(1, n_ev)
+        self.guarded(oi, 'apply(capture, fault)', lambda: m.apply(v, x, rngs=rngs, mutable=['intermediates'], capture_intermediates=True), fault_at=at)
+        if P.CTL.fired:
+          res.fault('raise@callback')
+          self.after_fault = True
+        # ... must leave no capture filter behind: a later NON-capturing call records what it recorded before
+        after_int = self.guarded(oi, 'apply(intermediates) after failed capture', plain_int)
+        if before_int[0] != after_int[0] or (before_int[0] == 'ok' and val(before_int[1]) != val(after_int[1])):
+          raise Violation('context-leaked', f'op {oi}: after a capturing apply was aborted by an exception, a non-capturing apply(mutable=[intermediates]) returns different intermediates than before')
         res.probe('observe_capture')
       elif how == 'strip_sow':
         sp2 = P.strip(spec, ('sow',))
